@@ -1092,11 +1092,11 @@ func (f *Flow) assign(env Env, t *Term, s ISet) {
 		if a != nil && ok {
 			if _, changed := a.wrap(bits, signed); !changed {
 				f.assign(env, t.A, s)
-			} else if sb, ssig, ok2 := intTypeInfo(f.w, t.A.T); ok2 && sb == bits && ssig != signed {
-				// a same-width reinterpretation (uint64(i64), int32(u32)) is a bijection:
-				// T(x) ∈ s ⇔ x ∈ s reduced mod 2^n into the operand's type
-				// (the one-comparison range test `uint64(x)+2^31 > MaxUint32`)
-				nw, _ := s.wrap(sb, ssig)
+			} else if sb, ss, okS := intTypeInfo(f.w, t.A.T); okS && sb == bits {
+				// a same-width conversion (int(kind) of an unsigned kind) is a bijection
+				// modulo 2^n: the operand lies in the pre-image of s, which is s re-read in
+				// the operand's type (`int(kind) < len(table)` failing bounds kind itself)
+				nw, _ := s.wrap(sb, ss)
 				f.assign(env, t.A, nw)
 			}
 		}
